@@ -133,6 +133,183 @@ example :
       (run Params.repaired zGmt (restart zGmt [] c0 0) ops).fs.get curName = some [⟨4, 8⟩, ⟨5, 8⟩, ⟨6, 8⟩] := by
   decide
 
+/-! ### the size limit for every retained file -/
+
+/-- a file respects the bound `L`: it is within it, or everything before its last statement has size 0 (a single
+    statement alone exceeds the limit) -/
+def Within (L : Nat) (c : List Stmt) : Prop := bytes c ≤ L ∨ ∃ pre st, c = pre ++ [st] ∧ bytes pre = 0
+
+/-- every tracked file — rotated or current — respects the bound -/
+def LimInv (L : Nat) (w : World) : Prop := ∀ e ∈ w.sink.created, Within L (content w.fs e)
+
+theorem IndexInv.name_ne_cur {w : World} (h : IndexInv w) {e : FileInfo} (he : e ∈ w.sink.created) (hne : e ≠ curInfo) :
+    e.name ≠ curName := by
+  obtain ⟨rest, hr⟩ := h.shape.last
+  have hs := h.shape.sorted
+  rw [hr, List.pairwise_append] at hs
+  rw [hr] at he
+  rcases List.mem_append.mp he with he | he
+  · have := hs.2.2 e he curInfo (by simp)
+    intro heq
+    simp only [FileInfo.name, curName, Name.file.injEq] at heq
+    simp only [curInfo] at this
+    omega
+  · simp only [List.mem_singleton] at he; exact absurd he hne
+
+theorem appendCur_limInv (L : Nat) (v : World) (st : Stmt) (hv : IndexInv v)
+    (hold : ∀ e ∈ v.sink.created, e ≠ curInfo → Within L (content v.fs e))
+    (hcur : Within L (content v.fs curInfo ++ [st])) : LimInv L (appendCur v st) := by
+  intro e he
+  by_cases hc : e = curInfo
+  · subst hc
+    simp only [appendCur, content, FileInfo.name, curInfo, FS.get_put, curName, ↓reduceIte, Option.getD_some]
+    exact hcur
+  · have hn := hv.name_ne_cur he hc
+    simp only [appendCur, content, FS.get_put, hn, ↓reduceIte]
+    exact hold e he hc
+
+/-- **One write keeps every tracked file within the bound** (Index scheme): with a size limit configured, `limit ≤ L`,
+    and rotation not stopped (backup limit reached with overwriting off — then, and only then, the current file grows past
+    the limit: `C14_limit`). Rotated files keep their content whole (`RotSpec.moved`), the file rotated away was within
+    the bound as the current file, the new current file holds the single new statement. Time-triggered rotations included. -/
+theorem write_limInv (P : Params) (z : Nat → Int) (L : Nat) (w : World) (st : Stmt) (ts : Nat) (h : IndexInv w)
+    (hl : LimInv L w) (hlim : w.sink.cfg.limit ≠ 0) (hle : w.sink.cfg.limit ≤ L) (hns : stopped w.sink = false) :
+    LimInv L (write P z w st ts) := by
+  have hcurm : curInfo ∈ w.sink.created := by obtain ⟨rest, hr⟩ := h.shape.last; rw [hr]; simp
+  obtain ⟨cont, hc, hsz⟩ := h.curInv
+  by_cases hdue : timeDue w ts ∨ sizeDue w st.size ts
+  · have hs := prepare_due P z w st.size ts hdue
+    have hinvp : IndexInv (prepare P z w st.size ts) := prepare_inv P z w st.size ts h
+    show LimInv L (appendCur (prepare P z w st.size ts) st)
+    by_cases hr : rotates w
+    · obtain ⟨_, cont', hc', hb⟩ := hr
+      have sp := rotate_index P z w ts cont' h hns hc' hb
+      apply appendCur_limInv L _ st hinvp
+      · intro e he hne
+        rw [hs.created, sp.created] at he
+        rcases List.mem_append.mp he with he | he
+        · obtain ⟨e0, he0, rfl⟩ := List.mem_map.mp he
+          simp only [content, hs.fs, sp.moved e0 he0]
+          exact hl e0 ((kept_sublist P w).subset he0)
+        · simp only [List.mem_singleton] at he; exact absurd he hne
+      · simp only [content_cur, hs.fs, sp.cur, Option.getD_some, List.nil_append]
+        exact Or.inr ⟨[], st, rfl, rfl⟩
+    · have hrw := rotate_of_not_rotates P z w ts h hr
+      have hb : bytes cont = 0 := by
+        by_cases hb : bytes cont = 0
+        · exact hb
+        · exact absurd ⟨hns, cont, hc, hb⟩ hr
+      apply appendCur_limInv L _ st hinvp
+      · intro e he hne
+        rw [hs.created, hrw] at he
+        simp only [content, hs.fs, hrw]
+        exact hl e he
+      · simp only [content_cur, hs.fs, hrw, hc, Option.getD_some]
+        exact Or.inr ⟨cont, st, rfl, hb⟩
+  · have ht : ¬ timeDue w ts := fun x => hdue (Or.inl x)
+    have hsd : ¬ sizeDue w st.size ts := fun x => hdue (Or.inr x)
+    rw [write, prepare_idle P z w st.size ts ht hsd]
+    apply appendCur_limInv L _ st h
+    · intro e he _; exact hl e he
+    · simp only [content_cur, hc, Option.getD_some]
+      left
+      rw [bytes_append]
+      have : ¬ w.sink.fileSize + st.size > w.sink.cfg.limit := fun hgt => hsd ⟨ht, hlim, hgt⟩
+      simp only [bytes, List.map_cons, List.map_nil, List.sum_cons, List.sum_nil] at *
+      omega
+
+/-- a start keeps the bound: append mode changes no file and recovers the same files; write mode with clean-up leaves
+    the empty current file -/
+theorem restart_limInv (z : Nat → Int) (L : Nat) (w : World) (c : Cfg) (start : Nat) (h : IndexInv w)
+    (hl : LimInv L w) (hc : RestartOK c) : LimInv L (restart z w.fs c start) := by
+  rcases hc.2 with ha | hr
+  · obtain ⟨h1, h2⟩ := restart_append_created z w c start h hc.1 ha
+    intro e he
+    rw [h1] at he; rw [h2]; exact hl e he
+  · by_cases ha : c.append = true
+    · obtain ⟨h1, h2⟩ := restart_append_created z w c start h hc.1 ha
+      intro e he
+      rw [h1] at he; rw [h2]; exact hl e he
+    · have ha' : c.append = false := by simpa using ha
+      intro e he
+      have hcr : (restart z w.fs c start).sink.created = [curInfo] := by simp [restart, ha', hr]
+      rw [hcr] at he
+      simp only [List.mem_singleton] at he; subst he
+      have : (restart z w.fs c start).fs.get curName = some [] := by simp [restart, ha', FS.get_put]
+      simp only [content_cur, this, Option.getD_some]
+      exact Or.inl (by simp [bytes])
+
+/-- the premise of the history theorem, evaluated along the run: every write happens with a size limit configured that is
+    at most `L` and with rotation not stopped; every restart is `RestartOK` (Index scheme; append, or write with clean-up) -/
+def LimHistOK (P : Params) (z : Nat → Int) (L : Nat) : World → List Op → Prop
+  | _, [] => True
+  | w, .write st ts :: ops => w.sink.cfg.limit ≠ 0 ∧ w.sink.cfg.limit ≤ L ∧ stopped w.sink = false ∧
+      LimHistOK P z L (write P z w st ts) ops
+  | w, .restart c s :: ops => RestartOK c ∧ LimHistOK P z L (restart z w.fs c s) ops
+
+/-- **No retained file exceeds the limit unless a single statement alone does — every history.** Index scheme, any
+    sequence of writes (size and time rotation) and restarts that may change the limit, the backup count, the overwrite flag
+    and the open mode: if `L` bounds every limit in force at a write and rotation never stops, then after the history every
+    tracked file (= every file of the family on disk, `IndexInv.noStale`) is within `L` or holds nothing of positive size
+    before its last statement. When rotation stops (overwriting off at the backup limit) the current file — and only it —
+    grows: `C14_limit`; a later rotation then carries that oversized file along, which is why the premise is needed
+    (witness `C14_stopped_file_rotated_oversized`). -/
+theorem C14_index_all_files_within_limit (P : Params) (z : Nat → Int) (L : Nat) : ∀ (ops : List Op) (w : World),
+    IndexInv w → LimInv L w → LimHistOK P z L w ops → LimInv L (run P z w ops)
+  | [], _, _, hl, _ => hl
+  | .write st ts :: ops, w, h, hl, hok =>
+    C14_index_all_files_within_limit P z L ops _ (write_inv P z w st ts h)
+      (write_limInv P z L w st ts h hl hok.1 hok.2.1 hok.2.2.1) hok.2.2.2
+  | .restart c s :: ops, w, h, hl, hok =>
+    C14_index_all_files_within_limit P z L ops _ (restart_inv z w.fs c s h.dirOK hok.1)
+      (restart_limInv z L w c s h hl hok.1) hok.2
+
+instance instDecLimHistOK (P : Params) (z : Nat → Int) (L : Nat) : (w : World) → (ops : List Op) →
+    Decidable (LimHistOK P z L w ops)
+  | _, [] => isTrue trivial
+  | w, .write st ts :: ops => have := instDecLimHistOK P z L (write P z w st ts) ops; by unfold LimHistOK; infer_instance
+  | w, .restart c s :: ops =>
+    have := instDecLimHistOK P z L (restart z w.fs c s) ops
+    by unfold LimHistOK RestartOK; infer_instance
+
+/-- non-vacuity: a history with a time schedule and a size limit, a restart that lowers the limit and the backup count
+    (overwriting on) and a write-mode restart satisfies the premise with `L = 12` -/
+example :
+    let c0 : Cfg := { limit := 12, maxBackup := 3, append := true, freq := .minutely, interval := 1 }
+    let c1 : Cfg := { limit := 10, maxBackup := 1, append := true }
+    let c2 : Cfg := { limit := 10, maxBackup := 2, append := false, removeOld := true }
+    LimHistOK Params.repaired zGmt 12 (restart zGmt [] c0 0)
+      [.write ⟨1, 8⟩ 1, .write ⟨2, 8⟩ 2, .write ⟨3, 3⟩ (60 * NS), .restart c1 (61 * NS), .write ⟨4, 8⟩ (62 * NS),
+       .write ⟨5, 20⟩ (63 * NS), .restart c2 (70 * NS), .write ⟨6, 8⟩ (71 * NS)] := by
+  decide
+
+/-- the excluded class: rotation stopped (one backup, overwriting off), the current file grew to 24 bytes under a limit of
+    10; after a restart with overwriting on the next rotation renames it — a rotated file of three statements over the limit -/
+theorem C14_stopped_file_rotated_oversized :
+    let c0 : Cfg := { limit := 10, maxBackup := 1, overwrite := false, append := true }
+    let c1 : Cfg := { limit := 10, maxBackup := 3, overwrite := true, append := true }
+    let w := run Params.repaired zGmt (restart zGmt [] c0 0)
+      [.write ⟨1, 8⟩ 1, .write ⟨2, 8⟩ 2, .write ⟨3, 8⟩ 3, .write ⟨4, 8⟩ 4, .restart c1 10, .write ⟨5, 8⟩ 11]
+    w.fs.get (.file none 1) = some [⟨2, 8⟩, ⟨3, 8⟩, ⟨4, 8⟩] ∧ ¬ LimInv 10 w := by
+  refine ⟨by decide, ?_⟩
+  intro h
+  have := h ⟨none, 1⟩ (by decide)
+  have hc : content (run Params.repaired zGmt (restart zGmt [] { limit := 10, maxBackup := 1, overwrite := false, append := true } 0)
+      [.write ⟨1, 8⟩ 1, .write ⟨2, 8⟩ 2, .write ⟨3, 8⟩ 3, .write ⟨4, 8⟩ 4,
+       .restart { limit := 10, maxBackup := 3, overwrite := true, append := true } 10, .write ⟨5, 8⟩ 11]).fs ⟨none, 1⟩ =
+      [⟨2, 8⟩, ⟨3, 8⟩, ⟨4, 8⟩] := by decide
+  rw [hc] at this
+  rcases this with h1 | ⟨pre, st, h1, h2⟩
+  · revert h1; decide
+  · have hl := congrArg List.length h1
+    simp at hl
+    have : pre = [⟨2, 8⟩, ⟨3, 8⟩] := by
+      have := congrArg (fun l => l.take 2) h1
+      simp [List.take_append, show pre.length = 2 by omega] at this
+      exact this.symm
+    subst this
+    revert h2; decide
+
 /-- **A look-alike file is removed by the clean-up** (Index scheme, write mode, `remove_old_files`): `log.x7.log` passes
     the scan filter and is deleted although it was never written by the sink; a file the filter ignores stays. -/
 theorem C14_junk_removed_by_cleanup :
